@@ -499,16 +499,41 @@ def _modes(model: Model, X: RuleResult):
         X.bad(gval, gval.node, "the three value modes must return nan / zeros + constant / extrap(outside positions)")
     # default per bc_type maps into the handled set
     cg = model.func(I1D, "check_and_get_extrap")
-    vals = []
-    for d in ast.walk(cg.node):
-        if isinstance(d, ast.Dict):
-            vals += [(k.value, v.value) for k, v in zip(d.keys, d.values) if isinstance(k, ast.Constant) and isinstance(v, ast.Constant)]
-    rets = [r.value.value for r in ast.walk(cg.node) if isinstance(r, ast.Return) and isinstance(r.value, ast.Constant)]
+    from ..domains.dictsem import DictInterp, Unsupported as _DU, Raised as _DR, _Return as _DRet
     allowed = DOC_POS | {"nan"}
-    if vals and all(v in allowed for _, v in vals) and all(r in allowed for r in rets) and dict(vals).get("clamped") == "mirror":
-        X.ok(cg.fq, "default extrapolation per boundary condition is a handled mode: %s, otherwise %s" % (dict(vals), rets))
+    env0 = {}
+    for st_ in model.module(I1D).tree.body:
+        if isinstance(st_, ast.Assign) and len(st_.targets) == 1 and isinstance(st_.targets[0], ast.Name) and isinstance(st_.value, ast.Dict):
+            try:
+                env0[st_.targets[0].id] = DictInterp({}).ev(st_.value)
+            except (_DU, _DR):
+                pass
+    pe, pb = cg.params()[:2]
+    seen = {}
+    for ex in (None, "mirror", "bound", "$user-value"):
+        for bc in ("clamped", "periodic", "natural", "not-a-knot", "$other"):
+            it = DictInterp(dict(env0, **{pe: ex, pb: bc}))
+            try:
+                it.run(cg.node.body)
+                got = None
+            except _DRet as r_:
+                got = r_.v
+            except _DU as e_:
+                X.undecided(cg, cg.node, "cannot interpret check_and_get_extrap(%r, %r): %s" % (ex, bc, e_))
+                return
+            except _DR as e_:
+                got = "<raises %s>" % e_
+            seen[(ex, bc)] = got
+    wrong = [(k, v) for k, v in seen.items() if (k[0] is not None and v != k[0]) or (k[0] is None and v not in allowed)]
+    if seen[(None, "clamped")] != "mirror":
+        wrong.insert(0, ((None, "clamped"), seen[(None, "clamped")]))
+    if not wrong:
+        X.ok(cg.fq, "default extrapolation per boundary condition is a handled mode (%s); an explicit choice is returned unchanged [%d abstract cases]"
+             % ({k[1]: v for k, v in seen.items() if k[0] is None}, len(seen)))
     else:
-        X.bad(cg, cg.node, "check_and_get_extrap must map only to handled modes ('clamped' -> 'mirror' is documented)")
+        (ex, bc), v = wrong[0]
+        X.bad(cg, cg.node, "check_and_get_extrap must map only to handled modes ('clamped' -> 'mirror' is documented) and leave an explicit choice alone: "
+              "check_and_get_extrap(%r, %r) gives %r" % (ex, bc, v))
     # bc_types list == branches of _get_spline_mat_inv
     init = model.func(I1D, "CubicSpline1D.__init__")
     lst = []
@@ -775,24 +800,46 @@ def _sort_pairing(model: Model, P: RuleResult):
         P.bad(init, srt[0], "x must be sorted (and the permutation kept) unless assume_sorted")
 
     def gathers_with(fi, yname, idx_src):
-        """y is gathered along the last axis with an index that is match_dim'ed from idx_src"""
+        """y is gathered along the last axis with an index that is (a match_dim'ed version / copy of) idx_src, and the gathered tensor
+        is what `yname` holds afterwards.  Names are resolved through copies and through match_dim, which returns its arguments in order."""
+        binds: Dict[str, list] = {}
+        for s in ast.walk(fi.node):
+            if isinstance(s, ast.Assign) and len(s.targets) == 1:
+                t = s.targets[0]
+                if isinstance(t, ast.Name):
+                    binds.setdefault(t.id, []).append((s.value, None))
+                elif isinstance(t, ast.Tuple):
+                    for k, e in enumerate(t.elts):
+                        if isinstance(e, ast.Name):
+                            binds.setdefault(e.id, []).append((s.value, k))
+
+        def sources(e, depth=0):
+            txt = ast.unparse(e)
+            if depth > 6:
+                return {txt}
+            if isinstance(e, ast.Name) and e.id in binds:
+                out = {txt} if e.id in fi.params() else set()
+                for v, k in binds[e.id]:
+                    if k is None and isinstance(v, (ast.Name, ast.Attribute)):
+                        out |= sources(v, depth + 1)
+                    elif k is not None and isinstance(v, ast.Call) and ast.unparse(v.func) == "match_dim" and k < len(v.args):
+                        out |= sources(v.args[k], depth + 1)
+                    elif k is not None and isinstance(v, ast.Tuple) and k < len(v.elts):
+                        out |= sources(v.elts[k], depth + 1)
+                    else:
+                        out.add("<%s>" % ast.unparse(v)[:40])
+                return out
+            return {txt}
         for s in ast.walk(fi.node):
             if isinstance(s, ast.Assign) and isinstance(s.value, ast.Call) and ast.unparse(s.value.func) == "torch.gather" and ast.unparse(s.targets[0]) == yname:
                 c = s.value
-                kw = {k.arg: ast.unparse(k.value) for k in c.keywords}
-                args = [ast.unparse(a) for a in c.args]
-                dim = kw.get("dim") or (args[1] if len(args) > 1 else None)
-                index = kw.get("index") or (args[2] if len(args) > 2 else None)
-                if args and args[0] == yname and dim == "-1" and index:
-                    # index must come from match_dim(y, <idx_src>) or be idx_src
-                    for m in ast.walk(fi.node):
-                        if isinstance(m, ast.Assign) and isinstance(m.value, ast.Call) and ast.unparse(m.value.func) == "match_dim" and isinstance(m.targets[0], ast.Tuple):
-                            tn = [ast.unparse(e) for e in m.targets[0].elts]
-                            an = [ast.unparse(a) for a in m.value.args]
-                            if index in tn and an[tn.index(index)] == idx_src and m.lineno < s.lineno:
-                                return s
-                    if index == idx_src:
-                        return s
+                kw = {k.arg: k.value for k in c.keywords}
+                dim = kw.get("dim") or (c.args[1] if len(c.args) > 1 else None)
+                index = kw.get("index") or (c.args[2] if len(c.args) > 2 else None)
+                src0 = c.args[0] if c.args else kw.get("input")
+                if src0 is not None and dim is not None and index is not None and ast.unparse(dim) == "-1" \
+                        and yname in sources(src0) and idx_src in sources(index):
+                    return s
         return None
     g1 = gathers_with(init, yp, idxn)
     stored = [s for s in ast.walk(init.node) if isinstance(s, ast.Assign) and ast.unparse(s.targets[0]) == "self.idx" and ast.unparse(s.value) == idxn]
